@@ -83,7 +83,7 @@ def confirm(d, dest_rel=None):
 
 def detect(d, tier="quick", props=None):
     m = load_meta(d)
-    prop = m.get("property") or os.path.basename(os.path.normpath(d)).split("-")[0]
+    prop = (m.get("property") or os.path.basename(os.path.normpath(d)).split("-")[0]).split()[0]
     props = props or [prop]
     st = sh(["git", "-C", "/repo", "status", "--porcelain"], "/")[1].strip()
     if st:
@@ -113,7 +113,7 @@ def detect_copy(d, tier="quick", props=None):
     """Like detect, but on private copies of /repo (worktree + patch) and /verif, so that nothing running
     concurrently from /repo or /verif is disturbed."""
     m = load_meta(d)
-    prop = m.get("property") or os.path.basename(os.path.normpath(d)).split("-")[0]
+    prop = (m.get("property") or os.path.basename(os.path.normpath(d)).split("-")[0]).split()[0]
     props = props or [prop]
     rc_dir = "/tmp/rseed_%d" % os.getpid()
     vc_dir = "/tmp/vseed_%d" % os.getpid()
